@@ -678,7 +678,27 @@ func checkInterruptCleaners(c *Ctx) {
 				if !inLoop(cc.If.Block(), hdr) || cc.If.Block() == hdr {
 					continue
 				}
-				if !hasField(cc.If.Cond, "disabled") || cc.Edge != 1 {
+				if hasField(cc.If.Cond, "disabled") {
+					if cc.Edge != 1 {
+						bad = "only the disabled cleaners are called (" + w.InstrPos(cc.If) + ")"
+					}
+					continue
+				}
+				// other spellings of the same test (disabled == false, !disabled): accepted when the flag is what is tested
+				mentions := false
+				var ops []ssa.Value
+				switch x := cc.If.Cond.(type) {
+				case *ssa.BinOp:
+					ops = []ssa.Value{x.X, x.Y}
+				case *ssa.UnOp:
+					ops = []ssa.Value{x.X}
+				}
+				for _, op := range ops {
+					if hasField(op, "disabled") {
+						mentions = true
+					}
+				}
+				if !mentions {
 					bad = "a cleaner is called under a condition other than 'not disabled' (" + w.InstrPos(cc.If) + ")"
 				}
 			}
